@@ -88,10 +88,17 @@ class KeyValueExecutableSpec(ExecutableSpec):
         return cirq._compat.dataclass_repr(self, namespace='cirq_google')
 
     def __eq__(self, other):
+        if not isinstance(other, KeyValueExecutableSpec):
+            return NotImplemented
         # The conversion to a dict object is required so that the order of the keys doesn't matter.
         return (self.executable_family == other.executable_family) and (
             dict(self.key_value_pairs) == dict(other.key_value_pairs)
         )
+
+    def __hash__(self):
+        # Must agree with __eq__, which ignores the order of the keys.
+        hash(self.key_value_pairs)  # TypeError for unhashable pairs, like the dataclass hash
+        return hash((self.executable_family, frozenset(dict(self.key_value_pairs).items())))
 
 
 @dataclass(frozen=True)
